@@ -215,6 +215,10 @@ structure Cfg where
   win : WinCfg
   /-- `nt = nt._replace(broadcast=broadcast)` (true) or the value is dropped (false) -/
   broadcastAssigned : Bool
+  /-- `net_if_addrs()`: the value handed to `_replace(broadcast=…)` for a record was bound in the SAME
+      iteration of the record loop on every path that reaches the call (true), or a path reaches it on
+      which the name still holds what an earlier record left there (false) -/
+  broadcastFresh : Bool
   /-- Solaris `_proc_basic_info`: the AccessDenied for an unreadable PID 0 carries the cached name -/
   sunosPid0Named : Bool
   /-- Windows `memory_maps()`: every `convert_dos_path(...)` of the per-mapping loop sits inside the
@@ -535,6 +539,69 @@ def netIfAddrsEntry (cfg : Cfg) (windows : Bool) (r : RawAddr) : OutAddr :=
       else nt
     | none => nt
   else nt
+
+/-! ### One call of `net_if_addrs()`: MANY records, and records on which the helper raises
+
+  The native layer hands a LIST of `(nic, fam, addr, mask, broadcast, ptp)`; the front end sorts it
+  by family number (`rawlist.sort(key=lambda x: x[1])`, stable), walks it once, and appends each
+  post-processed record to `ret[nic]`. Python's function-level names survive from one iteration to
+  the next: `carry` is what the name `broadcast` holds when an iteration starts deciding what to
+  `_replace`. `_common.broadcast_addr(nt)` has three outcomes per record (`Helper`): a value, `None`
+  (no netmask) or an exception (`ipaddress` rejects the netmask: here a `plen` beyond the family's
+  width stands for every netmask text that is not a prefix of that family — non-contiguous IPv4
+  mask, IPv6 mask spelled as an address, garbage). -/
+
+inductive Helper
+  | value (b : Nat)
+  | noValue
+  | raises
+  deriving DecidableEq, Repr
+
+/-- `_common.broadcast_addr(nt)` on one AF_INET / AF_INET6 record -/
+def broadcastHelper (r : RawAddr) : Helper :=
+  match r.fam, r.plen with
+  | .inet, some n => if n ≤ 32 then .value (ipv4Broadcast r.ip n) else .raises
+  | .inet6, some n => if n ≤ 128 then .value (ipv6Broadcast r.ip n) else .raises
+  | _, _ => .noValue
+
+/-- one iteration of the record loop: the post-processed record and what the name `broadcast`
+    holds afterwards. `cfg.broadcastFresh`: on the path where the helper raised, nothing of an
+    earlier iteration reaches `_replace` (the code as it is: `try / except / else`); without it the
+    value left by the previous record does. -/
+def netIfAddrsStep (cfg : Cfg) (windows : Bool) (carry : Option Nat) (r : RawAddr) : OutAddr × Option Nat :=
+  let sep := if windows then '-' else ':'
+  let mac := if r.fam == .link then padMac sep r.mac else r.mac
+  let nt : OutAddr := ⟨r.fam, mac, r.ip, r.plen, r.bcast⟩
+  if windows && (r.fam == .inet || r.fam == .inet6) then
+    let v : Option Nat :=
+      match broadcastHelper r with
+      | .value b => some b
+      | .noValue => none
+      | .raises => if cfg.broadcastFresh then none else carry
+    match v with
+    | some b => ((if cfg.broadcastAssigned then { nt with bcast := some b } else nt), v)
+    | none => (nt, v)
+  else (nt, carry)
+
+def netIfAddrsLoop (cfg : Cfg) (windows : Bool) : Option Nat → List (Nat × RawAddr) → List (Nat × OutAddr)
+  | _, [] => []
+  | carry, (nic, r) :: rest =>
+    let o := netIfAddrsStep cfg windows carry r
+    (nic, o.1) :: netIfAddrsLoop cfg windows o.2 rest
+
+/-- `list.sort(key=…)` is stable: an earlier element goes behind the later ones with a SMALLER key only -/
+def insertByFam (key : AddrFam → Nat) (x : Nat × RawAddr) : List (Nat × RawAddr) → List (Nat × RawAddr)
+  | [] => [x]
+  | y :: ys => if key y.2.fam < key x.2.fam then y :: insertByFam key x ys else x :: y :: ys
+
+def sortByFam (key : AddrFam → Nat) (rs : List (Nat × RawAddr)) : List (Nat × RawAddr) :=
+  rs.foldr (fun x acc => insertByFam key x acc) []
+
+/-- `psutil.net_if_addrs()` on a native answer of any length: `(nic, record)` pairs in the order the
+    front end appends them (`ret[nic]` = the pairs of that nic, in this order). `key` = the family
+    numbers of the platform identity (`socket.AF_INET`, `AF_INET6`, the layer's `AF_LINK` / -1). -/
+def netIfAddrs (cfg : Cfg) (windows : Bool) (key : AddrFam → Nat) (rs : List (Nat × RawAddr)) : List (Nat × OutAddr) :=
+  netIfAddrsLoop cfg windows none (sortByFam key rs)
 
 /-! ## Below `PidState`: the native status code in the probe record
 
